@@ -99,15 +99,19 @@ GROUPS = [['i', 'n', 's', 'b', 'iz'], ['t', 'nt', 'xy', 'r'], ['l', 'd', 'sel', 
 
 
 def prog(group: int, level: int, i: int, n: float, n_none: bool, iz_none: bool, s: str, b: bool, t0: int, t1: float,
-         r_none: bool, r0: int, r1: int, l0: int, llen: int, dk: bool, p1: int, p2: int, p3: int, mask: int) -> None:
+         r_none: bool, r0: int, r1: int, l0: int, llen: int, dk: bool, p1: int, p2: int, p3: int, mask: int, nest: bool = False) -> None:
     names = GROUPS[group]
     kw = {}
+    nested = False
     if group == 0:
         assume(n == n and n != math.inf and n != -math.inf and len(s) <= 4)
         kw = dict(i=i, n=None if pickbool(n_none) else n, s=s, b=pickbool(b), iz=None if pickbool(iz_none) else i)
     elif group == 1:
         assume(t1 == t1 and t1 != math.inf and t1 != -math.inf)
         kw = dict(t=(t0, t1), nt=(t0, t1), xy=(t1, t0))
+        if pickbool(nest):
+            nested = True
+            kw['t'] = ((t0, 1), t1)            # a tuple nested in the Tuple value
         if not pickbool(r_none):
             assume(r0 <= r1)
             kw['r'] = (r0, r1)
@@ -130,7 +134,7 @@ def prog(group: int, level: int, i: int, n: float, n_none: bool, iz_none: bool, 
     with untraced():
         saved = param.Parameter._serializers['json']
         param.Parameter._serializers['json'] = StubJSON
-    info = {'group': group, 'level': level}
+    info = {'group': group, 'level': level, 'nested_tuple': nested}
     try:
         p = P(**kw)
         mask = pick(mask, 0, 3)
